@@ -25,6 +25,18 @@ pub enum K {
     Int(i64),
     Real(f64),
     Str(String),
+    /// the script function kf<i> (arity i) as a value: a fresh function object at every use, equal
+    /// by value to every other one of the same function (script histories only)
+    Fun(u8),
+}
+
+/// function handles are an implementation detail: observations and the model agree on handle 0
+fn norm(o: &Obs) -> Obs {
+    match o {
+        Obs::Func { kind, arity, .. } => Obs::Func { kind: kind.clone(), handle: 0, arity: *arity },
+        Obs::Table(es, extra) => Obs::Table(es.iter().map(|(k, v)| (norm(k), norm(v))).collect(), *extra),
+        other => other.clone(),
+    }
 }
 
 #[derive(Clone, Debug, Serialize, Deserialize, PartialEq)]
@@ -82,6 +94,7 @@ impl K {
             K::Int(i) => Obs::Int(*i),
             K::Real(f) => Obs::Real(f.to_bits()),
             K::Str(s) => Obs::Str(s.clone()),
+            K::Fun(i) => Obs::Func { kind: "function".into(), handle: 0, arity: *i as u32 },
         }
     }
     fn card(&self) -> Card {
@@ -90,6 +103,7 @@ impl K {
             K::Int(i) => Card::scalar_int(*i),
             K::Real(f) => CardBody::ScalarFloat(*f).into(),
             K::Str(s) => Card::string_card(s.clone()),
+            K::Fun(i) => CardBody::Function(format!("kf{i}")).into(),
         }
     }
 }
@@ -192,7 +206,10 @@ fn expected_log(h: &History) -> Vec<(usize, Vec<Obs>)> {
     out
 }
 
-fn gen_key(rng: &mut Rng) -> K {
+fn gen_key(rng: &mut Rng, host: bool) -> K {
+    if !host && rng.chance(1, 8) {
+        return K::Fun(rng.below(3) as u8);
+    }
     match rng.below(10) {
         0 => K::Nil,
         1..=4 => K::Int(*rng.pick(&[0i64, 1, 2, 3, 4, 5, 7, 9, -1, 100])),
@@ -225,8 +242,8 @@ fn gen_history(rng: &mut Rng, host: bool) -> History {
             _ => [20, 15, 20, 20, 8, 8, 4, 5],
         };
         let op = match rng.weighted(&w) {
-            0 => Op::Set(t, gen_key(rng), gen_val(rng, &mut vn)),
-            1 => Op::Get(t, gen_key(rng)),
+            0 => Op::Set(t, gen_key(rng, host), gen_val(rng, &mut vn)),
+            1 => Op::Get(t, gen_key(rng, host)),
             2 => Op::Append(t, gen_val(rng, &mut vn)),
             3 => Op::Pop(t),
             4 => Op::Len(t),
@@ -234,7 +251,7 @@ fn gen_history(rng: &mut Rng, host: bool) -> History {
             6 => Op::ForEach(t),
             _ => {
                 if host {
-                    Op::Remove(t, gen_key(rng))
+                    Op::Remove(t, gen_key(rng, host))
                 } else {
                     Op::Len(t)
                 }
@@ -302,6 +319,15 @@ fn build_script(h: &History) -> Module {
     }
     let mut m = Module::default();
     m.functions.push(("main".into(), main));
+    // the functions used as keys
+    for i in 0..3usize {
+        let mut f = Function::default();
+        for j in 0..i {
+            f.arguments.push(format!("a{j}"));
+        }
+        f.cards.push(Card::return_card(Card::scalar_int(i as i64)));
+        m.functions.push((format!("kf{i}"), f));
+    }
     m
 }
 
@@ -346,7 +372,9 @@ fn judge_script(h: &History, out: &RunOut, faulted: bool) -> Vec<(Json, String)>
         match (want.get(j), got.get(j)) {
             (Some((_, w)), Some(_)) if w[0] == Obs::Ref(usize::MAX) => {}
             (Some((oi, w)), Some(g)) => {
-                if &w != g {
+                let g: Vec<Obs> = g.iter().map(norm).collect();
+                let g = &g;
+                if w != g {
                     let op = &h.ops[*oi];
                     let prev = if *oi > 0 { h.ops[..*oi].iter().rev().find(|o| o.table() == op.table() && !matches!(o, Op::Get(..) | Op::Len(..) | Op::Row(..) | Op::ForEach(..))).map(|o| o.name()).unwrap_or("none") } else { "none" };
                     v.push((
@@ -370,7 +398,7 @@ fn judge_script(h: &History, out: &RunOut, faulted: bool) -> Vec<(Json, String)>
     if complete {
         let models = final_models(h, h.ops.len());
         for (t, m) in models.iter().enumerate() {
-            if out.globals.get(&format!("final{t}")) != Some(&m.obs()) {
+            if out.globals.get(&format!("final{t}")).map(norm) != Some(m.obs()) {
                 v.push((
                     json!({"path": "script", "diverged": "final-contents"}),
                     format!("table {t}: final contents {:?}, model {}", out.globals.get(&format!("final{t}")).map(|o| o.short()), m.obs().short()),
@@ -412,6 +440,8 @@ fn kval(vm: &mut Vm<crate::ctl::vmrun::Host>, k: &K, keep: &mut Vec<cao_lang::vm
             keep.push(g);
             v
         }
+        // never generated for host histories
+        K::Fun(_) => Value::Nil,
     })
 }
 fn vval(vm: &mut Vm<crate::ctl::vmrun::Host>, v: &Val, keep: &mut Vec<cao_lang::vm::runtime::cao_lang_object::ObjectGcGuard>) -> Result<Value, ExecutionErrorPayload> {
